@@ -459,4 +459,108 @@ theorem atoi_toString (i : Nat) (hi : i < 2 ^ 63) : atoi (toString i) = some (In
   simp only [hcs, hcr, List.head?_cons]
   simp [hm, hp, hall, hval, hi]
 
+/-! ## from positions to the Go path strings -/
+
+/-- the path string a client writes for position `pos` of request `i` -/
+def clientPath (F : Facts) (batch : Bool) (i : Nat) (pos : List String) : String :=
+  joinDot ((if batch then [toString i] else []) ++ F.variablesKeyword :: pos)
+
+theorem toString_nat_noDot (i : Nat) : '.' ∉ (toString i).toList := by
+  intro h
+  have hcs : (toString i).toList = Nat.toDigits 10 i := Nat.toList_repr
+  rw [hcs] at h
+  have := Nat.isDigit_of_mem_toDigits (b := 10) (n := i) (by decide) (by decide) h
+  exact absurd this (by decide)
+
+theorem reqAt_ok (F : Facts) (reqs : List Req) (i : Nat) (r : Req) (h : reqs[i]? = some r) :
+    reqAt F reqs (Int.ofNat i) = .ok (i, r) := by
+  unfold reqAt
+  have : ¬ ((Int.ofNat i) < 0) := by simp
+  simp [h]
+  intro hlt
+  omega
+
+/-- one path of the client's map does, on request `i`, what `walk` does on its variables -/
+theorem injectPath_clientPath (F : Facts) (batch : Bool) (u i : Nat) (hi : i < 2 ^ 63) (hnb : batch = false → i = 0)
+    (reqs : List Req) (r : Req) (m : List (String × V)) (hr : reqs[i]? = some r) (hv : r.vars = some m)
+    (pos : List String) (hp : pos ≠ []) (hd : ∀ p ∈ pos, '.' ∉ p.toList) (hk : '.' ∉ F.variablesKeyword.toList) :
+    injectPath F batch u (clientPath F batch i pos) reqs =
+      match walk F u pos m with
+      | .ok m' => .ok (reqs.set i { r with vars := some m' })
+      | .err e => .err e
+      | .panic x => .panic x := by
+  unfold injectPath clientPath
+  rw [splitDot_joinDot _ (by cases batch <;> simp)
+    (by
+      intro p hpm
+      cases batch with
+      | false => simp at hpm; rcases hpm with rfl | h; exact hk; exact hd p h
+      | true =>
+        simp at hpm
+        rcases hpm with rfl | rfl | h
+        · exact toString_nat_noDot i
+        · exact hk
+        · exact hd p h)]
+  have hrest : pos.isEmpty = false := by cases pos with | nil => exact absurd rfl hp | cons _ _ => rfl
+  cases batch with
+  | false =>
+    have hi0 : i = 0 := hnb rfl
+    subst hi0
+    have h0 := reqAt_ok F reqs 0 r hr
+    simp only [injectParts, injectAt, Bool.false_eq_true, if_false, List.nil_append, ne_eq, not_true_eq_false, hrest]
+    simp only [show (0 : Int) = Int.ofNat 0 from rfl, h0, hv]
+    rfl
+  | true =>
+    have h0 := reqAt_ok F reqs i r hr
+    simp only [injectParts, injectAt, if_true, List.cons_append, List.nil_append, atoi_toString i hi, ne_eq,
+      not_true_eq_false, if_false, hrest, h0, hv]
+    rfl
+
+/-- the entries a client sends for a flattened map: one form key per pair -/
+def entriesOf (F : Facts) (batch : Bool) (i : Nat) : Pairs → List (Nat × String × List String)
+  | [] => []
+  | (u, pos) :: r => (u, toString u, [clientPath F batch i pos]) :: entriesOf F batch i r
+
+/-- `injectEntries` on those entries is `injectPairs` on the variables of request `i` -/
+theorem injectEntries_entriesOf (F : Facts) (batch : Bool) (i : Nat) (hi : i < 2 ^ 63) (hnb : batch = false → i = 0)
+    (files : List String) (hk : '.' ∉ F.variablesKeyword.toList) :
+    ∀ (pairs : Pairs) (reqs : List Req) (r : Req) (m : List (String × V)),
+      reqs[i]? = some r → r.vars = some m →
+      (∀ x ∈ pairs, files.contains (toString x.1) = true ∧ x.2 ≠ [] ∧ ∀ p ∈ x.2, '.' ∉ p.toList) →
+      injectEntries F batch files (entriesOf F batch i pairs) reqs =
+        match injectPairs F pairs m with
+        | .ok m' => .ok (reqs.set i { r with vars := some m' })
+        | .err e => .err e
+        | .panic x => .panic x := by
+  intro pairs
+  induction pairs with
+  | nil =>
+    intro reqs r m hr hv _
+    simp only [entriesOf, injectEntries, injectPairs]
+    congr 1
+    rcases List.getElem?_eq_some_iff.mp hr with ⟨hlt, hget⟩
+    have : ({ r with vars := some m } : Req) = r := by rw [← hv]
+    rw [this, ← hget, List.set_getElem_self]
+  | cons x rest ih =>
+    intro reqs r m hr hv hall
+    obtain ⟨u, pos⟩ := x
+    obtain ⟨hf, hp, hd⟩ := hall (u, pos) (by simp)
+    simp only [entriesOf, injectEntries, injectPairs, hf, Bool.not_true, Bool.false_eq_true, if_false, injectFile]
+    rw [injectPath_clientPath F batch u i hi hnb reqs r m hr hv pos hp hd hk]
+    cases hw : walk F u pos m with
+    | err e => rfl
+    | panic x => rfl
+    | ok m1 =>
+      simp only
+      have hlen : i < reqs.length := by
+        rcases List.getElem?_eq_some_iff.mp hr with ⟨h, _⟩; exact h
+      have hr1 : (reqs.set i { r with vars := some m1 })[i]? = some { r with vars := some m1 } := by
+        simp [hlen]
+      rw [ih (reqs.set i { r with vars := some m1 }) { r with vars := some m1 } m1 hr1 rfl
+        (fun y hy => hall y (by simp [hy]))]
+      cases injectPairs F rest m1 with
+      | err e => rfl
+      | panic x => rfl
+      | ok m' => simp [List.set_set]
+
 end PebblesVerif.Upload
